@@ -27,6 +27,7 @@ if dest.startswith("tmp/"):
 m = re.search(r"(go test[^\n]*)", head)
 cmd = m.group(1).strip() if m else f"go test -vet=off -count=1 -run . ./{os.path.dirname(dest)}/"
 cmd = re.sub(r"cd\s+\S+\s*&&\s*", "", cmd)
+cmd = re.split(r"\s{2,}\(|\s+#|\s+//", cmd)[0].strip()
 res = {"property": pid, "seed_id": sid, "demo_location": dest, "demo_command": cmd}
 shutil.copyfile(os.path.join(src, "demo_test.go"), os.path.join(wt, dest))
 rc, out = sh(cmd, cwd=wt)
